@@ -109,6 +109,13 @@ def run(ctx):
             res.find(key, f.loc(m["sp"]), "Instruction::%s can be a body instruction but the CFG builder %s: writing the blocks back does not reproduce the body" % (v, "skips it" if k == "skip" else "does not classify it explicitly"), "a body containing an Instruction::%s" % v)
     res.count("instruction_variants", len(allv), floor=40)
     res.count("body_capable_variants", len(body_variants), floor=25)
+    # offsets: an instruction kind that stays in the program body but is left out of the blocks (INCLUDE, by design of the
+    # reproduction clause) must still be counted by the offset bookkeeping, or every later block is located too early
+    for v in sorted(body_variants):
+        if kinds.get(v) == "skip":
+            key = "K5|offset-counts-skipped|%s" % v
+            res.site(key, True, {"variant": v, "verdict": "VIOLATION"})
+            res.find(key, f.loc(m["sp"]), "Instruction::%s stays in the program body but the CFG builder skips it without advancing the block offset: the offsets of all later blocks (and of later instructions of the same block) are one too low" % v, "`X 0; INCLUDE \"f\"; JUMP @a; LABEL @a; Y 0`: the block of @a reports offset 2, its LABEL is body[3]")
 
     # ---- R1b every arm that records something does so on every path through the arm (no early `continue`)
     def blocks_in(span):
@@ -320,6 +327,30 @@ def run(ctx):
             res.find(key, f.loc(s["sp"]), "when a block is closed here, the next block's offset is advanced by an amount that does not depend on %s" % " / ".join(missing), "`X 0; LABEL @a; Y 0`: the second block reports offset 2 although its first element (the label) is at body position 1")
     res.count("offset_update_sites", nupd, floor=2)
     res.count("terminator_table_rows", nterm, floor=4)
+    # has_dynamic_control_flow is `any block's terminator is_dynamic` on every path: its value is the result of an `any`
+    # over self.blocks whose closure consults the terminator's is_dynamic, with no other (constant) return
+    hd = [g for g in db.fns if g.name == "has_dynamic_control_flow" and "ControlFlowGraph" in g.path]
+    key = "K8|has-dynamic-control-flow"
+    if len(hd) != 1:
+        res.missing_anchor("ControlFlowGraph::has_dynamic_control_flow")
+    else:
+        from qv.engine import fn_expr_local as _fl, walk_expr as _wx2
+        g = hd[0]
+        e = _fl(g, 0)
+        ok = e[0] == "call" and e[1] and e[1].rsplit("::", 1)[-1] == "any" and e[2] and any(n[0] == "field" and n[2] == "blocks" for n in _nodes28(e[2][0]))
+        if ok:
+            clo = [n for n in _nodes28(e) if n[0] == "closure"]
+            ok = bool(clo) and any(any(c2 and c2.get("name") == "is_dynamic" for b2, t2, c2 in hh.calls()) for c_ in clo for hh in db.by_path.get(c_[1], []))
+        res.site(key, True, {"returns": (e[1].rsplit("::", 1)[-1] if e[0] == "call" else e[0]), "verdict": "ok" if ok else "VIOLATION"})
+        if not ok:
+            res.find(key, g.loc(), "has_dynamic_control_flow is not `self.blocks.iter().any(|b| b.terminator().is_dynamic())` on every path (it returns %s)" % (str(e[:2])[:80]), "a single-block program ending in JUMP-UNLESS reports no dynamic control flow")
     res.explanation = "Classification totality over %d Instruction variants (HIR arms of the CFG builder against add_instruction's body routing), terminator tables in both directions, and dependence queries on the %d offset-update sites (data dependence on Vec::len, data/selecting-control dependence on the closed block's label)." % (len(allv), nupd)
     res.assumptions = ["INCLUDE is excluded by the property"]
     return res
+
+
+def _nodes28(e):
+    from qv.engine import walk_expr
+    out = []
+    walk_expr(e, out.append)
+    return out
